@@ -30,6 +30,7 @@ type consCfg struct {
 	Interceptors   int     `json:"interceptors"`
 	AbortedReverse bool    `json:"abortedReverse"`
 	ReadTimeoutMs  int     `json:"readTimeoutMs"`
+	DoubleClose    bool    `json:"doubleClose"`
 }
 
 type consConsume struct {
@@ -350,6 +351,26 @@ func runConsumerScenario(t testing.TB, rec *vRec, sc *consScenario) {
 			time.Sleep(d)
 		case "release_fetch":
 			c.Release(1000 + st.Part*100 + st.N)
+		case "close_pc_again":
+			// closing a partition consumer twice must be harmless
+			if st0 := pcs[st.Part]; st0 != nil && closedPC[st.Part] {
+				done := make(chan struct{})
+				go func() {
+					defer func() {
+						if r := recover(); r != nil {
+							rec.Ev("panic", kv{"msg": fmt.Sprintf("second Close of partition consumer: %v", r), "stack": ""})
+						}
+						close(done)
+					}()
+					st0.pc.AsyncClose()
+					_ = st0.pc.Close()
+				}()
+				select {
+				case <-done:
+				case <-time.After(vCloseMax):
+					rec.Ev("hang", kv{"what": "pc_close_again", "part": st.Part})
+				}
+			}
 		case "close_pc":
 			closePC(st.Part, false)
 		case "async_close_pc":
@@ -382,7 +403,16 @@ func runConsumerScenario(t testing.TB, rec *vRec, sc *consScenario) {
 	rec.Ev("close_call", kv{"async": false})
 	done := make(chan struct{})
 	go func() {
+		defer func() {
+			if r := recover(); r != nil {
+				rec.Ev("panic", kv{"msg": fmt.Sprintf("consumer Close: %v", r), "stack": ""})
+				close(done)
+			}
+		}()
 		cons.Close()
+		if cf.DoubleClose {
+			cons.Close() // closing the consumer (and its client) twice must be harmless
+		}
 		wg.Wait()
 		close(done)
 	}()
@@ -399,6 +429,8 @@ func TestVerifConsumer(t *testing.T) {
 	lines := vReadLines(t, "VERIF_CASES")
 	rec := vOpenRec(t, "trace.ndjson")
 	defer rec.Close()
+	vInstallPanicHandler(rec)
+	defer func() { PanicHandler = nil }()
 	n := 0
 	for _, line := range lines {
 		var sc consScenario
